@@ -237,6 +237,8 @@ add("C20", "keep", "altnames-filter-by-string-compare", CL + "state.go",
     ("""		if len(alternativeName) > 0 {
 			filteredAlternativeNames = append(filteredAlternativeNames, alternativeName)""", """		if alternativeName != "" {
 			filteredAlternativeNames = append(filteredAlternativeNames, alternativeName)"""))
+add("C07", "keep", "rename-function-decryptclientinfo", SV + "auth.go", ("decryptClientInfo", "openClientInfo"))
+add("C06", "keep", "rename-function-decryptclientinfo", SV + "auth.go", ("decryptClientInfo", "openClientInfo"))
 add("C12", "break", "receive-backlog-bound-lowered", MX + "recvBuffer.go",
     ("const recvBufferSizeLimit = 1<<31 - 1", "const recvBufferSizeLimit = 1 << 24"))
 
